@@ -50,7 +50,7 @@ func runScript(x *mc.X, cfg *config, letters []string) *sys {
 	s.spawn = func(_ string, fn func()) { go fn() }
 	for _, d := range cfg.workers {
 		a := &actor{decl: d, ch: make(chan int, 1)}
-		a.w = &mWorker{name: d.name, id: map[string]string{"host": d.host}, scq: scqKey{pqKey{d.prefix, d.platform}, d.sc}}
+		a.w = &mWorker{name: d.name, id: d.id(), scq: scqKey{pqKey{d.prefix, d.platform}, d.sc}}
 		s.actors = append(s.actors, a)
 		go s.actorLoop(a)
 	}
@@ -168,7 +168,7 @@ func scriptConfigs() []*scriptConfig {
 	dedup := func(ops ...string) []string {
 		return append(append([]string{"W:1"}, ops...), "W:1.fail")
 	}
-	return []*scriptConfig{{
+	return []*scriptConfig{drainMultiScript(), {
 		cfg: cfg, reps: 16,
 		variants: []scriptVariant{
 			{
@@ -226,4 +226,66 @@ func scriptConfigs() []*scriptConfig {
 			},
 		},
 	}}
+}
+
+// drainMultiScript: drains whose worker ID pattern has SEVERAL fields, on
+// workers whose IDs have three. The drain AddDrain files and the one
+// RemoveDrain looks up are identified by the pattern, a map: an
+// implementation that derives the identity from the map's iteration order
+// removes the drain it added only under some orders, so that every history is
+// repeated on fresh schedulers (a wrong key shows with probability >= 1/4 per
+// repetition; 32 repetitions). Oracles: the boundary comparison (number of
+// drains, waiting workers offered/not offered, work conservation), the
+// routing oracle of Synchronize (a drained worker receives nothing, after
+// RemoveDrain the worker receives the queued task) and ListDrains /
+// ListWorkers against the model.
+func drainMultiScript() *scriptConfig {
+	wx := func(n int, rack, zone string) workerDecl {
+		d := w(n, "", "P1", 0)
+		d.extra = map[string]string{"rack": rack, "zone": zone}
+		return d
+	}
+	cfg := &config{
+		name: "c05-drain-multi", props: []string{"C05"},
+		inspect:     []string{"i:d", "i:w"},
+		predeclared: []pqDecl{{prefix: "", platform: "P1", sizeClasses: []uint32{0}}},
+		workers:     []workerDecl{wx(1, "r1", "z1"), wx(2, "r1", "z2")},
+		execs:       []execDecl{{name: "x1", platform: "P1", corr: "I1", dur: 1}},
+		drains: []drainDecl{
+			{name: "d:w1/3", platform: "P1", pattern: map[string]string{"host": "w1", "rack": "r1", "zone": "z1"}},
+			{name: "d:r1z2", platform: "P1", pattern: map[string]string{"rack": "r1", "zone": "z2"}},
+			{name: "d:r1", platform: "P1", pattern: map[string]string{"rack": "r1"}},
+			// Matches nobody: W:1 is in rack r1.
+			{name: "d:w1r9", platform: "P1", pattern: map[string]string{"host": "w1", "rack": "r9"}},
+		},
+	}
+	return &scriptConfig{
+		cfg: cfg, reps: 32,
+		variants: []scriptVariant{
+			{
+				// W:1 waits, is drained by a three-field pattern (x1 stays
+				// queued), the very same pattern is removed: W:1 receives x1.
+				name:    "three-fields",
+				letters: []string{"W:1", "d:w1/3+", "x1", "i:d", "i:w", "d:w1/3-", "i:d", "i:w", "x1", "W:1"},
+			},
+			{
+				// Two-field pattern without the host: matches W:2 only.
+				name:    "two-fields",
+				letters: []string{"W:1", "W:2", "d:r1z2+", "x1", "x1", "d:r1z2-", "i:d", "W:1", "W:2"},
+			},
+			{
+				// Overlapping drains of one, two and three fields, removed in
+				// another order than added; adding a drain twice is one drain.
+				name: "overlapping",
+				letters: []string{"W:1", "W:2", "d:r1+", "d:w1/3+", "d:r1z2+", "d:w1/3+", "x1", "x1", "i:d", "d:r1-", "i:w",
+					"d:w1/3-", "d:r1z2-", "i:d"},
+			},
+			{
+				// A multi-field pattern one field of which differs from the
+				// worker's ID drains nobody; removing it changes nothing.
+				name:    "non-matching",
+				letters: []string{"W:1", "d:w1r9+", "x1", "d:w1r9-", "d:w1/3+", "x1", "d:w1r9-", "W:1", "d:w1/3-"},
+			},
+		},
+	}
 }
